@@ -113,9 +113,14 @@ def _replay(case) -> dict:
         else:
             out = [engine.api(loader.align, templates[0], **kw).molecules]
         order = [[0, 1, 2]]
-    elif drv in ("group_list", "group_map"):
+    elif drv in ("group_list", "group_map", "group_map_hetero"):
         grp = loader.groupby("g")
-        targ = templates if drv == "group_list" else {0: templates, 1: templates}
+        if drv == "group_map_hetero":
+            # the groups search template lists of DIFFERENT lengths: one group gets an extra decoy template at the end
+            longer = templates + [asym_template(T)]
+            targ = {0: templates, 1: longer} if j % 2 == 0 else {0: longer, 1: templates}
+        else:
+            targ = templates if drv == "group_list" else {0: templates, 1: templates}
         res = engine.api(grp.align_multi_templates, targ, **kw)
         got = engine.api(lambda: {key: ldr.molecules for key, ldr in res})
         out = [got[0], got[1]]
